@@ -6,7 +6,7 @@
 use dasp_frame::Frame;
 use dasp_ring_buffer::Fixed;
 use dasp_rms::Rms;
-use dasp_sample::{FloatSample, Sample, I24, U48};
+use dasp_sample::{FloatSample, Sample, I24, U24, U48};
 use proptest::prelude::*;
 use serde::{Deserialize, Serialize};
 use vp_core::fmt::{Fmt, Kind, Val};
@@ -33,7 +33,7 @@ pub struct Case {
     pub exact: bool,
 }
 
-pub const KINDS: [Kind; 9] = [
+pub const KINDS: [Kind; 10] = [
     Kind::F32,
     Kind::F64,
     Kind::Int { bits: 16, signed: true },
@@ -43,6 +43,7 @@ pub const KINDS: [Kind; 9] = [
     Kind::Int { bits: 48, signed: false },
     Kind::Int { bits: 64, signed: false },
     Kind::Int { bits: 64, signed: true },
+    Kind::Int { bits: 24, signed: false },
 ];
 
 /// is this build using the approximate (no_std) square root?
@@ -251,6 +252,8 @@ pub fn check(c: &Case, st: &mut Stats) -> CheckResult {
         chans!(u64)
     } else if k == <i64 as Fmt>::KIND {
         chans!(i64)
+    } else if k == <U24 as Fmt>::KIND {
+        chans!(U24)
     } else {
         Err("bad case: format not instantiated".into())
     }
@@ -270,7 +273,7 @@ fn value(exact: bool) -> BoxedStrategy<f64> {
 }
 
 pub fn case_strategy(max_mult: usize) -> impl Strategy<Value = Case> {
-    (0usize..9, proptest::sample::select(vec![1usize, 2, 5]), prop_oneof![4 => 1usize..=64, 1 => proptest::sample::select(vec![100usize, 1000])], any::<bool>(), 0usize..9).prop_flat_map(
+    (0usize..KINDS.len(), proptest::sample::select(vec![1usize, 2, 5]), prop_oneof![4 => 1usize..=64, 1 => proptest::sample::select(vec![100usize, 1000])], any::<bool>(), 0usize..9).prop_flat_map(
         move |(ki, channels, n, exact, profile)| {
             let len = (n * max_mult).min(3000).max(4);
             let push = proptest::collection::vec(value(exact), channels);
